@@ -388,7 +388,7 @@ func init() {
 			"subscriber.Manager (CreateSession, AssignAddress, TerminateSession, lookups by id / MAC / IP)", "ebpf.MakeCircuitIDKey, ebpf.HashCircuitID"},
 		Stub: []string{"NTE store behind LoadFromStore/SyncToNTE (in-memory map of nexus.NTE records)", "address allocator behind subscriber.Manager (lowest-free model over 1-3 addresses)",
 			"fixed-key circuit-id map (harness map keyed by the real MakeCircuitIDKey/HashCircuitID; kernel maps absent)", "callers (harness tasks)"},
-		Rule: "cases: one component per run; 3-16 rounds of 1-4 callers x 0-2 ops over <=5 NTEs/subscribers/MACs, tag ranges 1-2 outer x 1-3 inner, stored-pair loads (restart / reload, incl. conflicting records), two sessions per MAC (PPPoE session table only; state.Store records keep distinct MACs and addresses, key changes through Update), id wrap-around (65535 create/remove pairs), cleanup under virtual time; non-trivial = >=3 completed operations and (a fault fired or >2 context switches); distinct = distinct (case hash, schedule fingerprint)",
+		Rule: "cases: one component per run; 3-16 rounds of 1-4 callers x 0-2 ops over <=5 NTEs/subscribers/MACs (VLAN: half of a round's ops go to one hot NTE, plus a release-vs-move motif; scheduling quanta up to 256 yields), tag ranges 1-2 outer x 1-3 inner, stored-pair loads (restart / reload, incl. conflicting records), two sessions per MAC (PPPoE session table only; state.Store records keep distinct MACs and addresses, key changes through Update), id wrap-around (65535 create/remove pairs), cleanup under virtual time; non-trivial = >=3 completed operations and (a fault fired or >2 context switches); distinct = distinct (case hash, schedule fingerprint)",
 		QuickRuns:    30000,
 		ThoroughRuns: 1500000,
 		Assumptions: []string{"a tag value of 0 is never offered (0 = no tag)",
